@@ -1792,11 +1792,17 @@ static void op_set_flow_def(struct ctx *c)
     do_set_flow_def(c, n, v, "");
 }
 
+static void do_input(struct ctx *c, struct node *n, uint8_t sz, uint8_t fl);
 static void op_input(struct ctx *c)
 {
     struct node *n = pick_node(c, true, false);
     uint8_t sz = tp_u8(&c->t), fl = tp_u8(&c->t);
     if (!n) { do_loop(c, sz); return; }          /* a pure source is driven by the event loop */
+    do_input(c, n, sz, fl);
+}
+
+static void do_input(struct ctx *c, struct node *n, uint8_t sz, uint8_t fl)
+{
     if (c->next_seq >= MAXSEQ) return;
     /* legal histories only: whoever feeds a pipe sends it a flow definition it accepts first (doc/rules) */
     if (!n->has_def) {
@@ -2126,10 +2132,10 @@ static int run_once(const uint8_t *tp_, size_t len, struct vp_report *rep, unsig
         int want = ps % 4;
         if (!m->sp->has_in || !m->sp->has_out) want = 1 + ps % 3;
         for (int k = 0; k < want && !c->ret; k++) do_sub(c, k, (ps >> 2) * (k + 1));
-        /* pipes that pick input buffers by date against a reference flow: in half of the cases the first input is defined and
+        /* pipes that pick input buffers by date against a reference flow: in three quarters of the cases the first input is defined and
          * selected and the reference flow defined up front, so that the 40 operations are spent on data and changes */
         struct node *s0 = &c->n[N_SUB0];
-        if ((m->sp->flags & F_PTSMATCH) && want >= 1 && (ps & 0x80) && !c->ret && node_alive(c, s0) && s0->held && s0->sp->ctl) {
+        if ((m->sp->flags & F_PTSMATCH) && want >= 1 && (ps & 0xc0) && !c->ret && node_alive(c, s0) && s0->held && s0->sp->ctl) {
             if (do_set_flow_def(c, s0, 0, "   [prelude]") && !c->ret) {
                 char what[128] = "", w2[192];
                 s0->sp->ctl(c, s0, 0, what, sizeof what);
@@ -2137,6 +2143,11 @@ static int run_once(const uint8_t *tp_, size_t len, struct vp_report *rep, unsig
                 R("  %s\n", w2);
                 end_op(c, w2);
                 if (!c->ret && node_alive(c, m)) do_set_flow_def(c, m, 0, "   [prelude]");
+                /* ... and in half of those a first buffer of the input has already been picked by the reference flow */
+                if (!c->ret && (ps & 0x40) && node_alive(c, m) && node_alive(c, s0)) {
+                    do_input(c, s0, 0x20, 0);
+                    if (!c->ret && node_alive(c, m)) do_input(c, m, 0, 0);
+                }
             }
         }
     }
